@@ -1059,6 +1059,13 @@ func (m *Memberlist) aliveNode(a *alive, notify chan struct{}, bootstrap bool) {
 				m.logger.Printf("[INFO] memberlist: Updating address for left or failed node %s from %v:%d to %v:%d",
 					state.Name, state.Addr, state.Port, net.IP(a.Addr), a.Port)
 				updatesNode = true
+			} else if bootstrap && a.Node == m.config.Name {
+				// Our own announcement is authoritative for our own address. A record
+				// of ourselves made from hearsay before we announced ourselves (Create
+				// starts the listeners before setAlive runs), e.g. with the address we
+				// had before a restart, must not turn the announcement into a conflict
+				// and leave us dead in our own view.
+				updatesNode = true
 			} else {
 				m.logger.Printf("[ERR] memberlist: Conflicting address for %s. Mine: %v:%d Theirs: %v:%d Old state: %v",
 					state.Name, state.Addr, state.Port, net.IP(a.Addr), a.Port, state.State)
